@@ -3041,15 +3041,19 @@ class LocalGitClient(GitClient):
                 # Validate all ref updates first before applying any
                 for refname, new_sha1 in new_refs.items():
                     old_sha1 = old_refs.get(refname, ZERO_SHA)
+                    # the value the ref has now (get_peeled() knows nothing
+                    # about loose refs)
+                    try:
+                        current = target.refs[refname]
+                    except KeyError:
+                        current = ZERO_SHA
                     if new_sha1 != ZERO_SHA:
-                        current = target.refs.get_peeled(refname)
-                        if current is not None and current != old_sha1:
+                        if current != old_sha1 or new_sha1 not in target.object_store:
                             ref_status[refname] = (
                                 f"unable to set {refname!r} to {new_sha1!r}"
                             )
                     else:
-                        current = target.refs.get_peeled(refname)
-                        if current is not None and current != old_sha1:
+                        if current != old_sha1:
                             ref_status[refname] = "unable to remove"
                 if ref_status:
                     # Atomic push: if any ref would fail, fail them all
@@ -3063,6 +3067,13 @@ class LocalGitClient(GitClient):
             for refname, new_sha1 in new_refs.items():
                 old_sha1 = old_refs.get(refname, ZERO_SHA)
                 if new_sha1 != ZERO_SHA:
+                    if new_sha1 not in target.object_store:
+                        # never let a ref name an object the target does not
+                        # have (nothing guarantees that the pack carried it)
+                        msg = f"unable to set {refname!r} to {new_sha1!r}"
+                        _progress(msg.encode())
+                        ref_status[refname] = msg
+                        continue
                     if not target.refs.set_if_equals(refname, old_sha1, new_sha1):
                         msg = f"unable to set {refname!r} to {new_sha1!r}"
                         _progress(msg.encode())
